@@ -1,8 +1,14 @@
 //! Scripted children, task wakers and the event log shared by all harness cases.
 //!
-//! Everything runs on one thread; the log and the per-case tables live in a thread-local.
+//! The case runs on one thread; the log and the per-case tables live in a thread-local.  In the
+//! `mt` mode the wake-ups a child performs during its poll are issued from a second thread, and the
+//! task waker holds that thread inside the crate's wake path (i.e. with the readiness lock held)
+//! while the polling thread carries on — see `fire_threaded`.
 
-use std::cell::RefCell;
+use std::cell::{Cell, RefCell};
+use std::sync::atomic::{AtomicBool, Ordering};
+use std::sync::{Condvar, Mutex};
+use std::time::Duration;
 use std::collections::VecDeque;
 use std::future::Future;
 use std::pin::Pin;
@@ -72,7 +78,27 @@ pub fn log(s: String) {
 }
 
 pub fn reset() {
+    settle();
     CTX.with(|c| *c.borrow_mut() = Ctx::default());
+    #[cfg(feature = "verif")]
+    futures_concurrency::__verif::reset();
+}
+
+/// log the crate's own view of its readiness bookkeeping (`ks <bits>/<count>/<p|->`), if the
+/// `fc-verif` hook is compiled in and a readiness set has been touched in this case
+pub fn ks() {
+    #[cfg(feature = "verif")]
+    match futures_concurrency::__verif::kernel_snapshot() {
+        Some(s) => log(format!("ks {s}")),
+        None => log("ks -".to_string()),
+    }
+}
+
+/// a wake-up that is an operation of the history (not one fired from inside a child's poll)
+pub fn fire_op(child: usize, age: usize) {
+    settle();
+    fire(child, age);
+    ks();
 }
 
 pub fn set_mute(m: bool) {
@@ -115,10 +141,106 @@ pub struct TaskWaker {
 
 impl Wake for TaskWaker {
     fn wake(self: Arc<Self>) {
-        log(format!("wo {}", self.id));
+        woke(self.id);
     }
     fn wake_by_ref(self: &Arc<Self>) {
-        log(format!("wo {}", self.id));
+        woke(self.id);
+    }
+}
+
+/// the task waker was invoked
+fn woke(id: usize) {
+    if IS_HELPER.with(|h| h.get()) {
+        // on the helper thread of the `mt` mode: hand the event to the polling thread, then stay
+        // inside the wake path (the crate holds its readiness lock around this call) until the
+        // polling thread releases us or a short time has passed
+        let mut f = FLIGHT.lock().unwrap();
+        f.events.push(format!("wo {id}"));
+        f.reached = true;
+        FLIGHT_CV.notify_all();
+        let (g, _) = FLIGHT_CV
+            .wait_timeout_while(f, Duration::from_millis(2), |f| !f.release)
+            .unwrap();
+        drop(g);
+    } else {
+        log(format!("wo {id}"));
+    }
+}
+
+/// `mt` mode: wake-ups performed during a child's poll come from another thread
+pub static MT: AtomicBool = AtomicBool::new(false);
+
+#[derive(Default)]
+struct Flight {
+    events: Vec<String>,
+    /// the helper is inside the task waker
+    reached: bool,
+    /// the helper has returned from the wake-up
+    done: bool,
+    release: bool,
+    active: bool,
+}
+
+static FLIGHT: Mutex<Flight> = Mutex::new(Flight {
+    events: Vec::new(),
+    reached: false,
+    done: false,
+    release: false,
+    active: false,
+});
+static FLIGHT_CV: Condvar = Condvar::new();
+
+thread_local! {
+    static IS_HELPER: Cell<bool> = const { Cell::new(false) };
+}
+
+/// let the wake-up that is in flight on the helper thread (if any) run to completion
+pub fn settle() {
+    let mut f = FLIGHT.lock().unwrap();
+    if !f.active {
+        return;
+    }
+    f.release = true;
+    FLIGHT_CV.notify_all();
+    let (mut f, _) = FLIGHT_CV
+        .wait_timeout_while(f, Duration::from_secs(20), |f| !f.done)
+        .unwrap();
+    let evs: Vec<String> = f.events.drain(..).collect();
+    *f = Flight::default();
+    drop(f);
+    for e in evs {
+        log(e);
+    }
+}
+
+/// `mt` mode: invoke `w` on a helper thread; returns once that thread is inside the task waker
+/// (still holding whatever lock the crate's wake path holds) or has returned from the wake-up
+fn fire_threaded(w: Waker) {
+    settle();
+    {
+        let mut f = FLIGHT.lock().unwrap();
+        *f = Flight::default();
+        f.active = true;
+    }
+    std::thread::spawn(move || {
+        IS_HELPER.with(|h| h.set(true));
+        let r = std::panic::catch_unwind(std::panic::AssertUnwindSafe(|| w.wake_by_ref()));
+        drop(w);
+        let mut f = FLIGHT.lock().unwrap();
+        if r.is_err() {
+            f.events.push("wp".into());
+        }
+        f.done = true;
+        FLIGHT_CV.notify_all();
+    });
+    let f = FLIGHT.lock().unwrap();
+    let (mut f, _) = FLIGHT_CV
+        .wait_timeout_while(f, Duration::from_secs(20), |f| !f.reached && !f.done)
+        .unwrap();
+    let evs: Vec<String> = f.events.drain(..).collect();
+    drop(f);
+    for e in evs {
+        log(e);
     }
 }
 
@@ -158,6 +280,10 @@ fn classify(c: &mut Ctx, waker: &Waker, slot: usize) -> String {
 
 /// invoke the waker handed to `child` in its `age`-th most recent poll
 pub fn fire(child: usize, age: usize) {
+    fire_on(child, age, false)
+}
+
+fn fire_on(child: usize, age: usize, threaded: bool) {
     let found = CTX.with(|c| {
         let c = c.borrow();
         c.handed.get(child).and_then(|h| {
@@ -172,6 +298,10 @@ pub fn fire(child: usize, age: usize) {
         None => log(format!("fi {child} {age} -")),
         Some((w, cls)) => {
             log(format!("fi {child} {age} {cls}"));
+            if threaded {
+                fire_threaded(w);
+                return;
+            }
             let r = std::panic::catch_unwind(std::panic::AssertUnwindSafe(|| w.wake_by_ref()));
             if r.is_err() {
                 log("wp".into());
@@ -203,8 +333,9 @@ pub fn poll_child(child: usize, cx: &mut Context<'_>) -> Res {
         })
     });
     child_begin(child, cx);
+    let mt = MT.load(Ordering::Relaxed);
     for (c2, age) in &step.fires {
-        fire(*c2, *age);
+        fire_on(*c2, *age, mt);
     }
     log(format!("ce {child} {}", step.res.text()));
     if step.res == Res::Panic {
